@@ -1,0 +1,33 @@
+//! Verification seam, compiled only with the `verif-hooks` feature.
+//!
+//! `ops/signature.rs` reads the wall clock through the path `time::OffsetDateTime::now_utc()`.
+//! With the feature on, that module imports [`time`] from here, which shadows the extern crate
+//! inside that module only. Without an installed override the real clock is read.
+
+use std::cell::Cell;
+
+thread_local! {
+    static NOW_OVERRIDE: Cell<Option<::time::OffsetDateTime>> = const { Cell::new(None) };
+}
+
+/// Installs (or clears) the instant returned by the clock seam on the current thread.
+pub fn set_now(now: Option<::time::OffsetDateTime>) {
+    NOW_OVERRIDE.with(|c| c.set(now));
+}
+
+/// Drop-in stand-in for the parts of the `time` crate used by `ops/signature.rs`.
+pub mod time {
+    pub use ::time::Duration;
+
+    /// Name-compatible seam for `time::OffsetDateTime::now_utc()`.
+    pub struct OffsetDateTime;
+
+    impl OffsetDateTime {
+        #[must_use]
+        pub fn now_utc() -> ::time::OffsetDateTime {
+            super::NOW_OVERRIDE
+                .with(std::cell::Cell::get)
+                .unwrap_or_else(::time::OffsetDateTime::now_utc)
+        }
+    }
+}
